@@ -48,6 +48,8 @@ def run(ctx):
                "honest proof for exactly that tree, position and leaves")
     ctx.assume("small-scope: two squares of width 4 (+ two of width 16/32 in the driver), 5 headers, <=2 composed manipulations")
     quick = ctx.quick
+    if ctx.replay:
+        return replay(ctx)
     # (no -coverage here: TLC's cost model runs out of memory on this module; the action coverage is
     # read off the emitted cases instead: every family with 0, 1 and 2 manipulations, and requests)
     r = ctx.tlc("proofs/Proofs.tla", "proofs/MCProofs_quick.cfg", workers=4, timeout=1200, java_opts=GC)
@@ -63,6 +65,13 @@ def run(ctx):
         else:
             ctx.note("as-found transcription: TLC reports TotalFunction via %s" %
                      [s.get("tampers") for _, s in a.trace][-1:])
+        b = ctx.tlc("proofs/Proofs.tla", "proofs/MCProofs_asfound_inc.cfg", must_pass=False, count=False, workers=2,
+                    timeout=600, java_opts=GC)
+        if b.violated != "IncludedExact":
+            ctx.inconclusive("the as-found transcription of Proof.equal no longer violates IncludedExact (violated=%s)" % b.violated)
+        else:
+            ctx.note("as-found transcription: TLC reports IncludedExact via %s" %
+                     [s.get("tampers") for _, s in b.trace][-1:])
     cases = r.printed.get("CASE", [])
     kinds = {}
     for c in cases:
@@ -119,3 +128,19 @@ def run(ctx):
     lenient = {k[len("lenient_"):]: v for k, v in c.items() if k.startswith("lenient_")}
     if lenient:
         ctx.note("real verifier accepts, model rejects, claim true (harmless): %s" % lenient)
+
+
+def replay(ctx):
+    """bin/check C12 --replay <file>: re-run the recorded case on the current tree (same seed)."""
+    d = json.load(open(ctx.replay))
+    obj = d.get("replay") if isinstance(d.get("replay"), dict) else d
+    p = os.path.join(ctx.work, "replay_case.json")
+    with open(p, "w") as f:
+        json.dump(obj, f)
+    env = {"VERIF_REPLAY_CASE": p}
+    if obj.get("seed") is not None:
+        env["VERIF_SEED"] = obj["seed"]
+    rep = ctx.go_driver("proofs", env=env, timeout=900)
+    ctx.cover(evaluations=1, traces_validated_against_impl=1)
+    ctx.sample(obj.get("case", obj))
+    ctx.note("replay of %s: %s" % (ctx.replay, json.dumps((rep or {}).get("summary"))[:300]))
